@@ -78,6 +78,11 @@ theorem map_abs_sortKids (ks : List PT) : (sortKids ks).map abs = RT.sortKids (k
   unfold sortKids RT.sortKids
   exact List.map_mergeSort (by intro a _ b _; simp)
 
+theorem map_abs_sortKidsBy (lt : Int → Int → Bool) (ks : List PT) :
+    (sortKidsBy lt ks).map abs = RT.sortKidsBy lt (ks.map abs) := by
+  unfold sortKidsBy RT.sortKidsBy
+  exact List.map_mergeSort (by intro a _ b _; simp)
+
 theorem abs_moveCtor_fst (n t) : abs (moveCtor n t).1 = abs t := by
   cases t; simp [moveCtor]
 
@@ -211,5 +216,16 @@ theorem step_refines {s s' : St} {op : Op} (hs : step s op = .ok s') :
       abs_val, abs_kids, hb', ha']
     rw [abs_putF, abs_putF, abs_putF, e1, e2, abs_setKids]
     simp
+  | sortBy a k =>
+    simp only [step, bind_ok, nodeAt_ok] at hs
+    obtain ⟨t, hg, hs⟩ := hs
+    simp only [Except.ok.injEq] at hs; subst hs
+    simp [RT.step, abs_getF, hg, abs_putF, abs_setKids, map_abs_sortKidsBy]
+  | mkFrom b v =>
+    simp only [step, bind_ok, nodeAt_ok] at hs
+    obtain ⟨t, hg, hs⟩ := hs
+    simp only [Except.ok.injEq] at hs; subst hs
+    simp only [RT.step, abs_getF, hg, Option.map_some, Option.bind_eq_bind, Option.bind_some, absF_append]
+    simp [absF, map_abs_copyLp]
 
 end Fcppt.C09
